@@ -93,6 +93,16 @@ func (h *Hub) HandleShipHandshakeStateUpdate(ski string, state model.ShipState) 
 		// acting upon the new state is safe
 		go func() {
 			<-time.After(time.Millisecond * 500)
+
+			// the notification goroutines are not ordered among each other: never deliver
+			// an outdated detail after a newer one, intermediate details may be skipped
+			h.muxNotify.Lock()
+			defer h.muxNotify.Unlock()
+
+			if service.ConnectionStateDetail() != pairingDetail {
+				return
+			}
+
 			h.hubReader.ServicePairingDetailUpdate(ski, pairingDetail)
 		}()
 	}
